@@ -39,6 +39,17 @@ CLAIMED = {
         note=BASE_NOTE + 'np.interp exactness on power-of-two spacings, margin stream elsewhere; datetime front-ends are covered under C12.',
         technique='Lean 4 proof (structural induction over the coordinate list, linarith over Q) + model/implementation correspondence',
         design='§7 C16'),
+    'C15': dict(
+        text=('Lean model of the ordered reader registry and getreader; theorems: an auto-detecting open leaves the '
+              'registry unchanged, hence after ANY history of opens the reader selected for any probe is the one a fresh '
+              'process selects (induction over histories), the selected reader is the first accepting entry, named open = '
+              'auto-detected reader when names are unique; the copy/alias flag of the model is re-extracted from '
+              '_getreader.py on every run, so the theorems are about the code as it is now; kernel-checked counterexample '
+              'for the aliasing variant (the defect repaired by a fix: commit). Correspondence: real histories in freshly '
+              'forked processes vs the model (selection at every step, registry order), probe data digests vs fresh process.'),
+        note=BASE_NOTE + 'isMine() answers are measured, not modelled; class creation during an open (would register new readers) is observed through the registry comparison only.',
+        technique='Lean 4 proof (frame lemma + induction over open histories) with a source-extracted model flag + model/implementation correspondence',
+        design='§7 C15'),
 }
 
 NOT_YET = {}
